@@ -101,6 +101,10 @@ type Call struct {
 	// WildcardSelf prints every binding of the form param = self.param as
 	// the single wildcard binding "* = self" (same meaning).
 	WildcardSelf bool
+	// WildcardFrom prints every binding of the form param = <ref>.param
+	// (a member of the struct value the reference names) as the single
+	// wildcard binding "* = <ref>" (same meaning).
+	WildcardFrom *Ref
 }
 
 type Pipeline struct {
@@ -354,6 +358,28 @@ func (prog *Program) SourceFiles(lay *Layout) map[string]string {
 	return files
 }
 
+// IsMemberOf: is r the member named field of the struct value w names?
+func IsMemberOf(r, w Ref, field string) bool {
+	if r.Call != w.Call {
+		return false
+	}
+	full := append([]string{}, w.Path...)
+	if w.Out == "" {
+		// a whole call: CALL.field
+		return r.Out == field && len(r.Path) == 0
+	}
+	full = append(full, field)
+	if r.Out != w.Out || len(r.Path) != len(full) {
+		return false
+	}
+	for i := range full {
+		if r.Path[i] != full[i] {
+			return false
+		}
+	}
+	return true
+}
+
 // StageText / PipelinesAndCallText render parts of the program (for tests
 // that lay the declarations out over files of their own choosing).
 func (prog *Program) StageText(s *Stage, lay *Layout) string {
@@ -522,9 +548,14 @@ func (p *printer) printCall(prog *Program, pl *Pipeline, c *Call, indent string)
 	}
 	p.b.WriteString("(\n")
 	wild := false
+	wildFrom := false
 	for _, b := range c.Bindings {
 		if r, ok := b.E.(Ref); ok && c.WildcardSelf && r.Call == "" && r.Out == b.Param && len(r.Path) == 0 {
 			wild = true
+			continue
+		}
+		if r, ok := b.E.(Ref); ok && c.WildcardFrom != nil && r.Call == c.WildcardFrom.Call && IsMemberOf(r, *c.WildcardFrom, b.Param) {
+			wildFrom = true
 			continue
 		}
 		p.comment(indent + "    ")
@@ -535,6 +566,11 @@ func (p *printer) printCall(prog *Program, pl *Pipeline, c *Call, indent string)
 	if wild {
 		p.comment(indent + "    ")
 		fmt.Fprintf(&p.b, "%s    *%s=%sself,\n", indent, p.ws(), p.ws())
+	} else if wildFrom {
+		p.comment(indent + "    ")
+		fmt.Fprintf(&p.b, "%s    *%s=%s", indent, p.ws(), p.ws())
+		p.printExpr(*c.WildcardFrom, indent+"    ")
+		p.b.WriteString(",\n")
 	}
 	p.dangling(indent + "    ")
 	p.b.WriteString(indent + ")")
